@@ -28,6 +28,14 @@ Definition e_report_c (cs : list key) (r : report) : sexp :=
   end.
 Definition e_kr_c (cs : list key) (p : list key * list report) : sexp :=
   L [e_list (fun k => e_str (lo cs k)) (fst p); e_list (e_report_c cs) (snd p)].
+(* command_read plus what it leaves in bib_data.entries (the keys, in order) *)
+Definition e_krk_c (cs : list key) (E : edict) (p : list key * list report) : sexp :=
+  L [e_list (fun k => e_str (lo cs k)) (fst p); e_list (e_report_c cs) (snd p); e_list (fun k => e_str (lo cs k)) (ed_keys E)].
+(* the BibTeX engine end to end: cite$ of every entry plus, per entry, the (lower-cased) keys of the entries
+   whose fields it sees *)
+Definition e_kra_c (cs : list key) (E : edict) (p : list key * list report) : sexp :=
+  L [e_list (fun k => e_str (lo cs k)) (fst p); e_list (e_report_c cs) (snd p);
+     e_list (fun k => e_list (fun a => e_str (lower a)) (ancestors E k)) (fst p)].
 Definition oks (o : option (list key)) : list key := match o with Some l => l | None => [] end.
 
 (* 1 _expand_wildcard_citations (db, cites)          2 _get_crossreferenced_citations (db, cites, m)
@@ -48,7 +56,8 @@ Definition dispatch (fn : Z) (a : sexp) : sexp :=
   | 4%Z | 5%Z =>
            let bd := read_db ocs db in
            e_res (fun bd => L [e_list (e_entry_c (oks ocs)) (bd_entries bd); e_list (e_report_c (oks ocs)) (bd_reports bd)]) (Ok bd)
-  | 6%Z | 9%Z => e_res (e_kr_c cs) (command_read db cs m (d_bool (d_nth a 3)))
+  | 6%Z => e_res (e_krk_c cs (bd_entries (read_db (Some cs) db))) (command_read db cs m (d_bool (d_nth a 3)))
+  | 9%Z => e_res (e_kra_c cs (bd_entries (read_db (Some cs) db))) (command_read db cs m (d_bool (d_nth a 3)))
   | 7%Z => e_res (e_kr_c (oks ocs)) (Ok (format_bibliography_raw (bd_entries (read_db None db)) ocs m))
   | 8%Z => e_res (e_kr_c cs) (py_engine db cs m (d_bool (d_nth a 3)))
   | 10%Z => e_res (e_kr_c cs) (Ok (select_unfiltered db cs m))
